@@ -1,14 +1,51 @@
 (* C15 — HTML filters edit the targeted element as specified on well-formed documents.
-   The universal statement (for every generated DOM tree: out = serialize(reference_edit(d))) is NOT proved: it is
-   decided by the correspondence run, where the reference edit is computed on the generator's tree and compared with
-   the crate AND with the model of RIO.HtmlFilter (so a disagreement is localised).  What is proved here:
-     - the chain discipline composes several filters in order (C15_compose: the chain output of two total stages on
-       one chunk is the second stage applied to the first stage's output, then the ends cascade);
-     - on the executable model, the three actions with and without selector on a document exercising every clause of
-       the statement (sibling targets, void and self-closing targets, nested path, comments, upper-case tags): these are
-       TESTS evaluated by the kernel (vm_compute), not universal theorems. *)
+
+   WHAT IS THEOREM (all closed under the global context, for EVERY lower-casing function, selector engine, action,
+   path, selector, inserted value and document tree):
+     - C15_token_level: the universal statement at the level of TOKENS.  For every document tree [doc] in the
+       domain of C15 ([in_domain]: each element of the path occurs once as an element child of the previous one,
+       resp. for replace the last one at least once as element / self-closing tag / void element among siblings; no
+       other tag anywhere outside the target's content is named like an element of the path; the target's content
+       has no tag named like the target), the stage of RIO.HtmlFilter (built from the model's own on_start_tag /
+       on_end_tag / emit, [HtmlTokens.tok_step]) run over the token stream of the tree outputs exactly
+       serialize(reference_edit(doc)) and holds nothing back.  The reference edit [Dom.ref_edit] is the generator's
+       [edit] (harness/src/c03.rs): C15_reference_is_generator_edit proves that it specialises to the literal
+       transcription of the Rust function when the value is one text node and the selector verdict one boolean.
+       With a selector, append_child / prepend_child re-tokenise the buffered target; at token level that step is
+       the side condition [insert_ok] on the target (part of [in_domain]), discharged on bytes by C15_reinsert.
+     - C15_stage_is_token_automaton: for ANY byte string, if the executable tokenisation [tokenize] (the tokenizer
+       model driven exactly as the filter loop drives it) yields (toks, tail) then the HTML stage fed with the bytes
+       as one chunk, then ended, outputs what the token automaton outputs on toks followed by tail (the filter
+       loop's holding back of texts containing '<' and of the last token only delays output).
+     - C15_reinsert: append_child / prepend_child (body_append.rs / body_prepend.rs) on a balanced target whose
+       serialisation the tokenizer reads as its token stream insert the value before the end tag / after the start tag.
+   WHAT IS PARTIAL (theorems with a named HYPOTHESIS about the tokenizer):
+     - C15_byte_level_partial: body_run on the serialised document = serialize(reference_edit(doc)) for every tree
+       in the domain, under the hypothesis [tokenizes_as doc]: the tokenizer model reads the serialised tree as
+       the tree's token stream (up to how non-tag bytes are split into text/comment/doctype tokens).  With a
+       selector and append/prepend, also [tokenizes_strict [target]] and [balanced target] ([in_domain_bytes]).
+       These hypotheses are NOT proved for a class of documents (the tokenizer model is a fuelled state machine
+       of ~900 lines; its totality/characterisation is work in progress elsewhere).
+     - C15_list_partial: several filters compose in order: body_run with a list of HTML filters = the reference
+       edits applied in order, under the same hypotheses for each intermediate document ([list_ok]; the documents are
+       not empty), and the TWO-PIECE LAW of the HTML stage for the stages after the first ([two_piece_law]: fed with
+       two pieces the stage ends like on their concatenation when that run does not end in the error state; this is
+       the split law of C03 in the conditional form proved in RIO.HtmlSplit.hfb_split_law_noerr from the tokenizer's
+       totality facts; the unconditional law is false): the chain hands a stage's held bytes over as a second piece.
+       C15_compose (kept): the chain discipline for two total stages on one chunk.
+   WHAT IS TEST (kernel-evaluated by vm_compute, not universal):
+     - C15_tok_*: the hypotheses [tokenizes_as] / [tokenizes_strict] hold on concrete documents covering every
+       node kind of the generator (attribute quoting styles, void and self-closing elements, comments containing
+       tags, script/style and the other raw-text elements with '<' and end tags inside, entities, multi-byte text,
+       doctype, upper-case tags, adjacent texts, a document ending in text);
+     - C15_instance: the hypotheses of C15_byte_level_partial are satisfiable on a generator-shaped document
+       (depth 3, selector, append_child), i.e. the theorem is not vacuous;
+     - the earlier examples of the executable model on [doc1] (C15_append_child ... C15_two_filters).
+   The correspondence run (crate vs model vs generator's expectation on every generated case) remains what ties
+   the model to the crate and what decides the universal byte-level statement where the hypotheses are not proved. *)
 Require Import Coq.Strings.String Coq.Strings.Ascii.
 Require Import RIO.Base RIO.TokMonad RIO.HtmlTok RIO.BodyText RIO.HtmlFilter RIO.ChainProofs RIO.BodyProofs RIO.CodecChain RIO.C03Run.
+Require Import RIO.Dom RIO.HtmlTokens RIO.HtmlBridge RIO.HtmlInsert RIO.HtmlList.
 Close Scope N_scope.
 Open Scope string_scope.
 
@@ -62,4 +99,139 @@ Example C15_two_filters : run1 (fun _ _ => false) [hf HAppendChild "<i>V</i>" ["
   = b "<!DOCTYPE html><HTML lang=en><head><title>t</title></head><body class='a>b'><b>W</b><!-- <main> --><main><p>one</p><br><p>two</P><i>V</i></main><script>if (a</main>) {}</script></body></html>".
 Proof. vm_compute. reflexivity. Qed.
 
+
+(* ================================================================== the universal statements (proofs in RIO.HtmlTokens, HtmlBridge, HtmlInsert, HtmlList) *)
+Close Scope string_scope.
+
+(* token level: THEOREM *)
+Theorem C15_token_level : forall (lower : str -> str) (sel_eval : str -> str -> bool) (act : action) (path : list str)
+    (sel : option str) (value doc : list node),
+  in_domain lower sel_eval act path sel value doc ->
+  exists F' : hfb,
+    run_tokens lower sel_eval (hfb_new (mkvis act path sel value)) [] (forest_tokens lower doc)
+    = ROk (F', ser_forest (ref_edit lower act value (css sel_eval sel) path doc))
+    /\ f_buffers F' = [] /\ f_last F' = [].
+Proof. exact RIO.HtmlTokens.C15_token_level. Qed.
+
+(* the reference edit is the generator's edit() *)
+Theorem C15_reference_is_generator_edit : forall (lower : str -> str) (act : action) (value : str) (css_m : option bool)
+    (path : list str) (n : node),
+  forallb (fun p => no_void_named lower p n) path = true ->
+  edit lower act [Text value] (match css_m with Some b => Some (fun _ => b) | None => None end) path n
+  = [edit_rs lower act value css_m path n].
+Proof. exact edit_rs_edit. Qed.
+
+(* the stage on bytes is the token automaton on the tokenisation: THEOREM (any input) *)
+Theorem C15_stage_is_token_automaton : forall (lower : str -> str) (sel_eval : str -> str -> bool) (F : hfb) (data : list N)
+    (toks : list dtok) (tail : list N) (F' : hfb) (o' : str),
+  tokenize lower data = Some (toks, tail) ->
+  f_in_error F = false -> f_last F = [] -> f_raw_tag F = [] ->
+  run_tokens lower sel_eval F [] (toks ++ [DOther tail]) = ROk (F', o') ->
+  exists (F1 : hfb) (o1 : list N), hfb_filter lower sel_eval F data = (F1, o1) /\ o1 ++ held F1 = o' ++ bufs_of F' /\ f_in_error F1 = false.
+Proof. exact filter_obs. Qed.
+
+(* append_child / prepend_child by re-tokenisation: THEOREM *)
+Theorem C15_reinsert : forall (lower : str -> str) (sel_eval : str -> str -> bool) (act : action) (sel : option str)
+    (value : list node) (n : node),
+  balanced lower n = true -> tokenizes_strict lower [n] -> insert_ok lower sel_eval act sel value n.
+Proof. exact insert_ok_tokens. Qed.
+
+(* bytes, one filter: PARTIAL (hypothesis tokenizes_as, and tokenizes_strict inside in_domain_bytes) *)
+Theorem C15_byte_level_partial : forall (lower : str -> str) (sel_eval : str -> str -> bool) (act : action) (path : list str)
+    (sel : option str) (value doc : list node),
+  in_domain_bytes lower act path sel doc ->
+  tokenizes_as lower doc ->
+  body_run lower sel_eval true [mk_filter act path sel value] [ser_forest doc]
+  = ser_forest (ref_edit lower act value (css sel_eval sel) path doc).
+Proof. exact RIO.HtmlInsert.C15_byte_level_partial. Qed.
+
+(* bytes, several filters in order: PARTIAL (the same hypotheses per filter, and the two-piece law of the HTML stage,
+   which is the first conclusion of RIO.HtmlSplit.hfb_split_law_noerr) *)
+Theorem C15_list_partial : forall (lower : str -> str) (sel_eval : str -> str -> bool) (fs : list hfilter) (doc : list node),
+  list_ok lower sel_eval fs doc ->
+  (forall f, In f (tl fs) -> two_piece_law lower sel_eval (hfb_new (mkvis (hf_act f) (hf_path f) (hf_sel f) (hf_val f)))) ->
+  body_run lower sel_eval true (map to_body fs) [ser_forest doc]
+  = ser_forest (ref_edit_list lower (map (to_ref sel_eval) fs) doc).
+Proof. exact RIO.HtmlList.C15_list_partial. Qed.
+
+(* ================================================================== TESTS of the hypotheses (vm_compute) *)
+Open Scope string_scope.
+Definition E t a ch := Elem (b t) (b a) ch.
+Definition Vd t a := Void (b t) (b a).
+Definition Sc t a := SelfClosing (b t) (b a).
+Definition T s := Text (b s).
+Definition Cm s := Comment (b s).
+Definition Rw t s := Raw (b t) (b s).
+Ltac tok_as := unfold tokenizes_as; eexists; eexists; split; vm_compute; reflexivity.
+Ltac tok_strict := unfold tokenizes_strict; eexists; split; vm_compute; reflexivity.
+
+Example C15_tok_elements : tokenizes_as lower_ascii [E "html" "" [E "body" "" [E "p" "" [T "one"]; E "p" "" []]]].
+Proof. tok_as. Qed.
+Example C15_tok_attributes : tokenizes_as lower_ascii
+  [E "div" " class=""a""" [E "p" " id='x y'" []; E "p" " data-k=v" [T "t"]; E "span" " title=""a>b""" []; E "li" " hidden" []; E "em" " a=""1"" b='2' c=3" [T "x"]]].
+Proof. tok_as. Qed.
+Example C15_tok_void : tokenizes_as lower_ascii [E "main" "" [Vd "br" ""; Vd "img" " title=""a>b"""; T "x"; Vd "meta" " hidden"; Vd "hr" " id='x y'"; Vd "BR" ""]].
+Proof. tok_as. Qed.
+Example C15_tok_self_closing : tokenizes_as lower_ascii [E "main" "" [Sc "x-a" ""; Sc "use" " class=""a"""; Sc "main" " data-k=v"; Sc "br" ""]].
+Proof. tok_as. Qed.
+Example C15_tok_comments : tokenizes_as lower_ascii [E "body" "" [Cm " c "; Cm "</body>"; T "t"; Cm "<p>"; Cm " a -- b "; Cm ""]].
+Proof. tok_as. Qed.
+Example C15_tok_script_style : tokenizes_as lower_ascii
+  [E "head" "" [Rw "script" "var a = 1;"; Rw "script" "if (a < b) { x(); }"; Rw "script" "document.write('</p><body>');"; Rw "style" "<!-- x -->"; Rw "style" "a<b"]].
+Proof. tok_as. Qed.
+Example C15_tok_raw_text : tokenizes_as lower_ascii
+  [E "head" "" [Rw "title" "a </head> b"; Rw "textarea" "x </body> y <p>"; Rw "noscript" "</main></article>"; Rw "xmp" "<b>bold</b> &amp; </html>"; Rw "iframe" "plain"]].
+Proof. tok_as. Qed.
+Example C15_tok_texts : tokenizes_as lower_ascii
+  [E "p" "" [T "hello"; T " "; T "a &amp; b"; E "i" "" [T "x > y"]; Text [99; 97; 102; 195; 169; 32; 240; 159; 164; 152]%N; T "line
+break"; T "1 &lt; 2"]].
+Proof. tok_as. Qed.
+Example C15_tok_doctype_upper : tokenizes_as lower_ascii [T "<!DOCTYPE html>"; E "HTML" " lang=en" [E "P" "" [T "t"]; E "DIV2" "" []]].
+Proof. tok_as. Qed.
+Example C15_tok_ends_in_text : tokenizes_as lower_ascii [E "html" "" []; T "
+"].
+Proof. tok_as. Qed.
+Example C15_tok_ends_in_lt_text : tokenizes_as lower_ascii [E "p" "" []; T "a<b"].
+Proof. tok_as. Qed.
+Example C15_tok_siblings_depth4 : tokenizes_as lower_ascii
+  [E "html" "" [T " "; E "body" " class=""a""" [Cm "<p>"; E "main" "" [E "article" "" [T "1"]; Vd "hr" ""; Sc "article" " hidden"; E "article" " id='x y'" [E "em" "" []]]; T "x"]; Rw "style" "a<b"]].
+Proof. tok_as. Qed.
+
+(* a generator-shaped document: fillers of every kind around html > body > main *)
+Definition fill : list node :=
+  [T "hello"; T " "; Cm " </body> "; Rw "script" "if (a<b) x('</p><body>');"; Vd "br" " class=""a"""; Sc "x-a" " id='x y'";
+   E "span" " title=""a>b""" [T "x > y"; E "P" "" []]; Rw "title" "a </head> b"].
+Definition tgt : node := E "main" " id=m" (fill ++ [E "em" " class=""mark""" [T "m"]] ++ fill)%list.
+Definition doc3 : list node := [T "<!DOCTYPE html>"; E "HTML" " lang=en" (fill ++ [E "body" "" (fill ++ [tgt] ++ fill)%list] ++ fill)%list; T "
+"].
+Example C15_tok_generator_shaped : tokenizes_as lower_ascii doc3.
+Proof. tok_as. Qed.
+Example C15_tok_target_strict : tokenizes_strict lower_ascii [tgt].
+Proof. tok_strict. Qed.
+
+(* the hypotheses of C15_byte_level_partial are satisfiable: append_child with a selector at depth 3 *)
+Example C15_instance : forall sel_eval,
+  body_run lower_ascii sel_eval true [mk_filter AAppend [b "html"; b "body"; b "main"] (Some (b "em.mark")) [E "b" "" [T "V"]]] [ser_forest doc3]
+  = ser_forest (ref_edit lower_ascii AAppend [E "b" "" [T "V"]] (css sel_eval (Some (b "em.mark"))) [b "html"; b "body"; b "main"] doc3).
+Proof.
+  intros sel_eval. apply C15_byte_level_partial; [|exact C15_tok_generator_shaped].
+  unfold in_domain_bytes. cbn [spine].
+  exists [T "<!DOCTYPE html>"], (b "HTML"), (b " lang=en"), (fill ++ [E "body" "" (fill ++ [tgt] ++ fill)%list] ++ fill)%list, [T "
+"].
+  split; [reflexivity|]. split; [reflexivity|]. split; [reflexivity|]. split; [reflexivity|]. split; [reflexivity|].
+  exists fill, (b "body"), (b ""), (fill ++ [tgt] ++ fill)%list, fill.
+  split; [reflexivity|]. split; [reflexivity|]. split; [reflexivity|]. split; [vm_compute; reflexivity|]. split; [vm_compute; reflexivity|].
+  exists fill, (b "main"), (b " id=m"), (fill ++ [E "em" " class=""mark""" [T "m"]] ++ fill)%list, fill.
+  split; [reflexivity|]. split; [split; [reflexivity|split; [reflexivity|vm_compute; reflexivity]]|].
+  split; [vm_compute; reflexivity|]. split; [vm_compute; reflexivity|].
+  intros _ _. split; [vm_compute; reflexivity|exact C15_tok_target_strict].
+Qed.
+
 Print Assumptions C15_compose.
+Print Assumptions C15_token_level.
+Print Assumptions C15_reference_is_generator_edit.
+Print Assumptions C15_stage_is_token_automaton.
+Print Assumptions C15_reinsert.
+Print Assumptions C15_byte_level_partial.
+Print Assumptions C15_list_partial.
+Print Assumptions C15_instance.
